@@ -397,7 +397,7 @@ def _clone(eng, t, a, fr, dt):
 
 
 @reg('Deref::deref', 'DerefMut::deref_mut', 'AsRef::as_ref', 'Borrow::borrow', 'String::as_str',
-     'Vec::as_slice', 'String::as_mut_str', 'Vec::as_mut_slice', 'String::as_bytes')
+     'Vec::as_slice', 'String::as_mut_str', 'Vec::as_mut_slice')
 def _deref(eng, t, a, fr, dt):
     r = a[0]
     v = r
@@ -2821,7 +2821,7 @@ def _char_indices(eng, t, a, fr, dt):
     return Iter('list', tuple(items), 0)
 
 
-@reg('str::bytes', 'String::bytes', 'str::as_bytes', 'String::into_bytes')
+@reg('str::bytes', 'String::bytes', 'str::as_bytes', 'String::as_bytes', 'String::into_bytes')
 def _str_bytes(eng, t, a, fr, dt):
     s = as_str(eng, a[0])
     if not s.concrete():
@@ -3110,3 +3110,31 @@ def _string_from_utf8(eng, t, a, fr, dt):
     if had or pend:
         return err(Opaque('FromUtf8Error'))
     return ok(Str(chars))
+
+
+@reg('String::drain')
+def _string_drain(eng, t, a, fr, dt):
+    """String::drain(range): removes the byte range and yields its characters."""
+    r = a[0]
+    st = as_str(eng, eng.load(r))
+    rg = deref_all(a[1])
+    total = str_len(eng, st)
+    tot = total.v if total.concrete else eng.ctx.concretize(total.v)
+    start, end = _range_bounds(eng, rg, tot)
+    mid = _str_slice(eng, st, start, end)
+    pre = _str_slice(eng, st, 0, start)
+    post = _str_slice(eng, st, end, tot)
+    eng.store(r, Str(pre.c + post.c))
+    return Iter('chars', mid, 0)
+
+
+@reg('Vec::drain')
+def _vec_drain(eng, t, a, fr, dt):
+    r = _innermost_ref(eng, a[0])
+    v = eng.load(r)
+    rg = deref_all(a[1])
+    start, end = _range_bounds(eng, rg, len(v.items))
+    if start > end or end > len(v.items):
+        raise Panic('drain range out of bounds')
+    eng.store(r, VecV(v.items[:start] + v.items[end:]))
+    return Iter('list', v.items[start:end], 0)
